@@ -1,6 +1,7 @@
 import HecsModel.Model.World
 import HecsModel.Model.Atomics
 import HecsModel.Generated.Facts
+import HecsModel.Lemmas.Reserved
 /-
   C07 — Concurrent entity reservation hands out distinct, valid handles.
 
@@ -53,5 +54,57 @@ theorem reserveEntity_twice_distinct (w : World) (h : w.cursor ≤ 0) :
   have hc' : ¬ w.cursor - 1 > 0 := by omega
   simp only [World.reserveEntity, hc, hc', if_false]
   omega
+
+/-! ### arbitrary sequences of reservation calls -/
+
+/-- `RCall.one` / `RCall.many n` are the model operations `reserveEntity` / `reserveEntities n`:
+same successor state, and the handles are those carried by the operation's result -/
+theorem rcall_is_step (w : World) (c : RCall) :
+    (step w c.toOp).1 = (c.apply w).1 ∧ (step w c.toOp).2.res.handles = (c.apply w).2 :=
+  World.RCall.apply_eq_step w c
+
+/-- Any sequence of `reserve_entity` / `reserve_entities(n)` calls (hence, by the argument at the top
+of this file, any interleaving of such calls from any number of threads), started in a world that
+satisfies the invariant: all handles handed out over the whole sequence have pairwise distinct ids;
+each of them is contained in the final state and answered as "exists, no components"; none of them is
+the id of a row; the rows are untouched and the invariant still holds. -/
+theorem reserve_sequence_distinct (w : World) (hi : w.Inv) (cs : List RCall) :
+    ((reserveSeq cs w).2.map (·.id)).Nodup ∧
+    (∀ e, e ∈ (reserveSeq cs w).2 →
+      (reserveSeq cs w).1.contains e = true ∧ (reserveSeq cs w).1.get e = some none ∧
+      (∀ a i r, (reserveSeq cs w).1.rowAt a i = some r → r.id ≠ e.id) ∧
+      (∀ a i r, w.rowAt a i = some r → r.id ≠ e.id)) ∧
+    (reserveSeq cs w).1.archs = w.archs ∧ (reserveSeq cs w).1.Inv := by
+  obtain ⟨s1, s2, s3, _, s5⟩ :=
+    World.reserveSeq_spec cs w ((World.inv_iff_good w).1 hi) [] (by simp)
+  have hinv := (World.inv_iff_good _).2 s1
+  refine ⟨s3, ?_, s2, hinv⟩
+  intro e he
+  have hr := s5 e (by simpa using he)
+  have hnr := hr.no_row hinv.core
+  refine ⟨hr.contains, hr.get, hnr, ?_⟩
+  intro a i r hrow
+  apply hnr a i r
+  simp only [World.rowAt] at hrow ⊢
+  rw [s2]; exact hrow
+
+/-- handles reserved before the sequence stay reserved and are never handed out again -/
+theorem reserve_sequence_avoids_outstanding (w : World) (hi : w.Inv) (cs : List RCall)
+    (prev : List Entity) (hprev : ∀ e, e ∈ prev → w.isReserved e) :
+    (∀ e, e ∈ (reserveSeq cs w).2 → ∀ p, p ∈ prev → e.id ≠ p.id) ∧
+    (∀ p, p ∈ prev → (reserveSeq cs w).1.isReserved p) := by
+  obtain ⟨_, _, _, s4, s5⟩ := World.reserveSeq_spec cs w ((World.inv_iff_good w).1 hi) prev hprev
+  exact ⟨s4, fun p hp => s5 p (List.mem_append_left _ hp)⟩
+
+/-- The cursor-position view: `reserve_entity` claims position `cursor - 1`, `reserve_entities(n)`
+positions in `[cursor - n, cursor)`; the cursor only decreases, so successive calls claim disjoint
+position intervals, and positions map injectively to ids. -/
+theorem reserve_positions (w : World) (hi : w.Inv) :
+    (w.reserveEntity).2.id = w.posId (w.cursor - 1) ∧
+    (∀ n e, e ∈ (w.reserveEntities n).2 → ∃ p : Int, w.cursor - n ≤ p ∧ p < w.cursor ∧ e.id = w.posId p) ∧
+    (∀ p q : Int, p < w.pending.size → q < w.pending.size → w.posId p = w.posId q → p = q) :=
+  ⟨World.reserveEntity_pos w,
+   fun n e he => World.reserveEntities_pos w n ((World.inv_iff_good w).1 hi) e he,
+   World.posId_inj w ((World.inv_iff_good w).1 hi)⟩
 
 end Hecs.Props.C07
